@@ -241,22 +241,37 @@ Definition copy_missing_tables (m : builder) (f : fontref) : builder :=
                     | None => m
                     end) (fr_records f) m.
 
+(* FontBuilder::add_table<T>: `let bytes = crate::dump_table(table).map_err(..)?; Ok(self.add_raw(tag, bytes))`.
+   Compiling the typed table (validation + packing, properties C04/C05) is external to this model: its
+   outcome is an input.  [Some bytes] = dump_table returned Ok(bytes); [None] = it returned Err, and the `?`
+   returns before the builder is touched. *)
+Definition add_table (m : builder) (tag : Z) (dumped : option (list Z)) : builder :=
+  match dumped with
+  | Some bytes => add_raw tag bytes m
+  | None => m
+  end.
+
 (* ---- correspondence case format (written by harness/src/bin/c06.rs) ----
-   case = (ops, built, (opens, header, tags, queries))
+   case = (ops, probes, built, (opens, header, tags, queries))
    ops   : (0, tag, bytes) = add_raw; (1, _, font bytes) = copy_missing_tables(FontRef::new(bytes));
+           (3, T::TAG, bytes) = add_table(&t) where dump_table(&t) = Ok(bytes) and add_table returned Ok;
+           (4, T::TAG, _) = add_table(&t) where dump_table(&t) = Err(_) and add_table returned Err;
            a single (2, _, bytes) = no build, the reader is run on [bytes] as given (malformed stream)
+   probes: (tag, FontBuilder::contains(tag)) asked after the last op, before build()
    built : Some file = what FontBuilder::build returned; None = it panicked
    opens : FontRef::new(file).is_ok(); header = [sfnt; num; search_range; entry_selector; range_shift];
    tags  : directory tags in directory order; queries : (tag, table_data(tag)) *)
 Definition op := (Z * Z * list Z)%type.
 Definition obs := (bool * list Z * list Z * list (Z * option (list Z)))%type.
-Definition case := (list op * option (list Z) * obs)%type.
+Definition case := (list op * list (Z * bool) * option (list Z) * obs)%type.
 
 Definition apply_op (m : option builder) (o : op) : option builder :=
   do m <- m;;
   let '(k, t, d) := o in
   if k =? 0 then Some (add_raw t d m)
   else if k =? 1 then (do f <- font_ref_new d;; Some (copy_missing_tables m f))
+  else if k =? 3 then Some (add_table m t (Some d))
+  else if k =? 4 then Some (add_table m t None)
   else None.
 Definition apply_ops (ops : list op) : option builder := fold_left apply_op ops (Some []).
 
@@ -286,11 +301,21 @@ Definition check_reader (file : list Z) (o : obs) : bool :=
       && forallb (fun q => ozlist_eqb (table_data f (fst q)) (snd q)) queries
   end.
 
+Definition check_probes (ops : list op) (probes : list (Z * bool)) : bool :=
+  match ops with
+  | [(2, _, _)] => true
+  | _ => match apply_ops ops with
+         | Some m => forallb (fun p => Bool.eqb (contains m (fst p)) (snd p)) probes
+         | None => false
+         end
+  end.
+
 Definition check_case (c : case) : bool :=
-  let '(ops, built, o) := c in
+  let '(ops, probes, built, o) := c in
   match model_file ops with
   | None => false
   | Some mf =>
+      check_probes ops probes &&
       ozlist_eqb mf built &&
       match built with
       | Some file => check_reader file o
